@@ -43,8 +43,18 @@ pub fn run(ctx: &mut Ctx) {
     let quick = ctx.quick();
     let n = if quick { 30_000 } else { 1_500_000 };
     ctx.run_cases(n, |ctx, idx, rng| {
-        let size = *rng.pick(&[0usize, 0, 1, 1, 2]);
-        let (desc, tree) = if rng.chance(0.1) {
+        let size = *rng.pick(&[0usize, 0, 1, 1, 2, 2]);
+        let (desc, tree) = if idx % 4 == 3 {
+            // contention workload for the parallel solvers: wide trees with hidden moves, so that
+            // one infoset lies below several frontier nodes handed to different workers
+            let mut par = gen::GenParams::random(rng, 2);
+            par.hide_rate = *rng.pick(&[0.6, 1.0]);
+            par.p_term = 0.0;
+            par.max_actions = rng.range(3, 5);
+            par.max_depth = rng.range(3, 5);
+            par.node_budget = rng.range(150, 600);
+            (format!("g1-contention(depth<={},budget={},acts<={})", par.max_depth, par.node_budget, par.max_actions), gen::random_tree(rng, &par))
+        } else if rng.chance(0.1) {
             let games = gen::trivial_games();
             let i = rng.below(games.len());
             (format!("trivial{}", i), games[i].clone())
@@ -66,13 +76,13 @@ pub fn run(ctx: &mut Ctx) {
             if nodes > 300 && iters > 100 {
                 iters = 100;
             }
-            let threads = pick_threads(rng);
+            let threads = if idx % 4 == 3 { *rng.pick(&[2usize, 3, 4, 8, 16]) } else { pick_threads(rng) };
             if threads > 1 && threads <= 64 && iters > 100 {
                 iters = 100;
             }
             let max_reg = *rng.pick(&[0.0, 0.0, f64::NAN, -1.0, 1e-300, f64::INFINITY, f64::NEG_INFINITY, 0.1, 1.0, 1e9]);
             let cfg = Cfg { method, iters, max_reg, threads, params };
-            let jitter = threads > 1 && threads <= 64 && rng.chance(0.5);
+            let jitter = threads > 1 && threads <= 64 && (idx % 4 == 3 || rng.chance(0.5));
             let hook = if jitter { Some(Config { flags: verif::JITTER, sampling: Sampling::Production, jitter_seed: rng.next() }) } else { None };
             ctx.mark(idx, &cfg.describe());
             ctx.count(&format!("threads:{}", if threads > 64 { "overflowing".to_string() } else { threads.to_string() }), 1);
@@ -139,7 +149,7 @@ pub fn run(ctx: &mut Ctx) {
         }
     });
     ctx.finish(crate::report::extra(
-        "cases = Game::solve calls: G1/G2 and degenerate games (single terminal, chance only, one player without decisions, all payoffs equal, unreachable infosets) x {Full, Sampled, External} x {None, presets, random (alpha,beta,gamma,w) from {-inf,-1e3,-5,-1,-0.5,0,0.5,1,1.5,2,5,1e3,+inf}} x budgets {0,1,2,3,4,7,10,30,100,1000} x thresholds {0,NaN,-1,1e-300,+-inf,0.1,1,1e9} x threads {0,1,2,3,4,8,16,64,usize::MAX/3+1,usize::MAX}, half of the multi-threaded runs under schedule jitter (hook H5). Judged: no panic (caught per call; worker death and a 25 s no-CPU-progress deadlock detector in the driver), Err only with threads != 1 and only the two documented kinds (ThreadOverflow exactly for counts above usize::MAX/3), on Ok every infoset of the dense result (hook verif_probs, which unlike as_named does not hide NaN/negative entries) is a distribution, bounds are non-negative, not NaN, infinite iff T = 0, total = max, and the result re-imports and evaluates to finite numbers. distinct = hash(tree, configuration); non-trivial = game has a decision infoset.",
+        "cases = Game::solve calls: G1/G2 and degenerate games (single terminal, chance only, one player without decisions, all payoffs equal, unreachable infosets) x {Full, Sampled, External} x {None, presets, random (alpha,beta,gamma,w) from {-inf,-1e3,-5,-1,-0.5,0,0.5,1,1.5,2,5,1e3,+inf}} x budgets {0,1,2,3,4,7,10,30,100,1000} x thresholds {0,NaN,-1,1e-300,+-inf,0.1,1,1e9} x threads {0,1,2,3,4,8,16,64,usize::MAX/3+1,usize::MAX}, half of the multi-threaded runs under schedule jitter (hook H5); every fourth case is a contention workload (wide hidden-move trees, 2-16 threads, always jittered) so that shared infosets are hit by several workers at once. Judged: no panic (caught per call; worker death and a 25 s no-CPU-progress deadlock detector in the driver), Err only with threads != 1 and only the two documented kinds (ThreadOverflow exactly for counts above usize::MAX/3), on Ok every infoset of the dense result (hook verif_probs, which unlike as_named does not hide NaN/negative entries) is a distribution, bounds are non-negative, not NaN, infinite iff T = 0, total = max, and the result re-imports and evaluates to finite numbers. distinct = hash(tree, configuration); non-trivial = game has a decision infoset.",
         &["the exact value usize::MAX/3 is not exercised (it makes rayon spawn ~32000 threads for ~110 s on this VM before ThreadSpawnError comes back; probed once during design)",
           "a ThreadSpawnError with <=64 threads is classed inconclusive (resource exhaustion), never a violation",
           "'never hangs' is decided as bounded progress: no CPU progress for 25 s inside a solve = deadlock witness; wall-clock watchdog firing = inconclusive"],
